@@ -9,6 +9,8 @@ if ROUND == '3':
     MAP = {'A': 'C', 'B': 'D'}
 if ROUND == '4':
     MAP = {'A': 'E', 'B': 'F'}
+if ROUND == '5':
+    MAP = {'A': 'G', 'B': 'H'}
 for p in sys.argv[1:]:
     notes=open('/tmp/wt/%s/seeded/NOTES.md'%p).read()
     unconfirmed = []
